@@ -454,6 +454,15 @@ func fixedPointC41(input []byte) (decoded bool, err error) {
 	}
 	b1, eerr := encodeTreeC41(n0)
 	if eerr != nil {
+		// The statement promises decode(encode(x)) = x for entries restic can hold, not that every
+		// foreign blob the decoder tolerates can be written again: Go's time parser accepts
+		// "0000-10-01T0:00:00+24:00" (zone hour 24, one-digit hour) and time.Time.MarshalJSON then
+		// refuses the value. A clean encoding error for such input is no violation (the native fuzz
+		// target found this shape in the thorough tier; the first version of this oracle called it one).
+		// Only time values may be refused; anything else the decoder produced must encode.
+		if strings.Contains(eerr.Error(), "Time.MarshalJSON") {
+			return true, nil
+		}
 		return true, fmt.Errorf("decoded tree cannot be encoded again: %v", eerr)
 	}
 	n1, derr := decodeTreeC41(b1)
